@@ -806,7 +806,7 @@ def run(chk):
                 return False
             return v is not None and v[0] == key
         small = shrink_case(case, fails)
-        chk.add_finding(key, violation_of(small, span)[1], {"case": small})
+        chk.add_finding(key, violation_of(small, span)[1], dict({"case": small}, **({} if ok else {"broken_obligation": why})))
     if bptk_fail is not None and first_spec is None:
         (start, stop, n), obs, want = bptk_fail
         chk.add_finding(KEY if stop <= 0 else "runner-skips-finished-scenario",
@@ -818,7 +818,7 @@ def run(chk):
         case, e = label_fail
         chk.add_finding("time-label", f"run_specs({case['start']}, {case['stop']}, 1/{case['n']}): time label of round {e[1]} step {e[2]} is {e[3]!r}, "
                         f"not the grid point {e[1]} + {e[2]}/{case['n']} (exact for a binary dt: label_exact_pow2)", {"case": case})
-    if not ok:
+    if not ok and first_spec is None:      # otherwise the failing-input search succeeded: reported once, with the input
         chk.add_finding("obligation", f"proof obligations of C12 no longer check: {why}",
                         {"theorem": "Bptk.C12.Gen.holds / Bptk.Props.C12", "detail": why}, found_input=False)
     if diff is not None and first_spec is None:
